@@ -116,3 +116,56 @@ func VerifC10ArgsValues() {
 	// and the stored arguments validate
 	vAssert(a.Validate() == nil, "Args.Validate rejects what Args.Add stored")
 }
+
+// VerifC10Nested: numeric values inside slices and maps (literal.Any's
+// reflection path) are stored exactly or rejected as well.
+func VerifC10Nested() {
+	var v any
+	kind := 0
+	var s int64
+	var u uint64
+	// (maps go through reflect.Value.MapKeys / MapIndex, which the engine's
+	// reflection model does not cover: outside the bound)
+	switch vChoose("shape", 3) {
+	case 0:
+		x := vU64("v")
+		v, kind, u = []uint64{x}, 1, x
+	case 1:
+		x := vI64("v")
+		v, s = []int64{x}, x
+	default:
+		x := vUint("v")
+		v, kind, u = []any{x}, 1, uint64(x)
+	}
+	a := New()
+	err := a.Add("k", v)
+	if err != nil {
+		vReach("rejected")
+		if kind == 0 {
+			vAssert(vOr(s > c10Max53, s < -c10Max53), "a nested signed integer within +/-(2^53-1) was rejected")
+		} else {
+			vAssert(u > uint64(c10Max53), "a nested unsigned integer within 2^53-1 was rejected")
+		}
+		return
+	}
+	vReach("stored")
+	node, _ := a.GetNode("k")
+	var leaf datamodel.Node
+	if node.Kind() == datamodel.Kind_List {
+		leaf, _ = node.LookupByIndex(0)
+	} else {
+		leaf, _ = node.LookupByString("n")
+	}
+	vAssert(leaf != nil && leaf.Kind() == datamodel.Kind_Int, "a nested integer was stored as another kind")
+	if leaf == nil {
+		return
+	}
+	got, gerr := leaf.AsInt()
+	vAssert(gerr == nil, "a nested integer cannot be read back")
+	if kind == 0 {
+		vAssert(got == s, "a nested signed integer was silently altered")
+	} else {
+		vAssert(vAnd(got >= 0, uint64(got) == u), "a nested unsigned integer was silently altered")
+	}
+	vAssert(vAnd(got <= c10Max53, got >= -c10Max53), "a nested integer outside +/-(2^53-1) was accepted")
+}
